@@ -344,10 +344,7 @@ fn svr_scenario(ctx: &Ctx, case: u64, out: &mut Out) {
     let mut r = Rng::derive(ctx.seed, 0xC16_5555_0000 ^ case);
     let work = fresh_dir(&ctx.scratch, &format!("svr{}", case));
     let db = work.join("db");
-    let port = {
-        let l = std::net::TcpListener::bind("127.0.0.1:0").unwrap();
-        l.local_addr().unwrap().port()
-    };
+    let port = crate::netcli::free_port();
     let cfg = format!(
         "net.host = \"127.0.0.1\"\nnet.port = {}\nnet.min_backoff_ms = 1\nnet.max_backoff_ms = 64\nnet.max_connections = 16\nstorage.path = \"{}\"\nstorage.concurrency = 2\nstorage.readers_cache_size = 16\nstorage.max_file_size = 4096\nstorage.sync = \"none\"\nstorage.merge.policy = \"never\"\nstorage.merge.check_interval_ms = 180000\nstorage.merge.check_jitter = 0.3\nstorage.merge.triggers.fragmentation = 0.6\nstorage.merge.triggers.dead_bytes = 512000000\nstorage.merge.thresholds.fragmentation = 0.4\nstorage.merge.thresholds.dead_bytes = 128000000\nstorage.merge.thresholds.small_file = 10000000\n",
         port,
@@ -405,6 +402,13 @@ fn svr_scenario(ctx: &Ctx, case: u64, out: &mut Out) {
                 return;
             }
         }
+    }
+    // make sure it is our process that answered (its data directory exists and it is alive)
+    if !db.is_dir() || !matches!(child.try_wait(), Ok(None)) {
+        let _ = child.kill();
+        let _ = child.wait();
+        out.count("svr_binary_scenarios_discarded_port_taken", 1);
+        return;
     }
     // a second client sits mid-frame
     let mut idle = connect(port).ok();
